@@ -264,6 +264,11 @@ def _strcell(v, dt):
         if dt.kind == "U" and dt.width is not None and len(v) > dt.width:
             v = v[:dt.width]
         return v          # opaque concrete cell; converted lazily on comparison with a symbolic cell
+    if isinstance(v, builtins.bool): raise ModelGap("store bool into string array")
+    if isinstance(v, builtins.int): return _strcell(str(v), dt)
+    if isinstance(v, (SymI64, symx.SymPyInt)):
+        e = z3.simplify(v.e)
+        if z3.is_bv_value(e): return _strcell(str(e.as_signed_long()), dt)       # a Python int whose value is fixed: its decimal text
     raise ModelGap(f"store {type(v).__name__} into string array")
 
 def _fit(cell, dt):
@@ -499,6 +504,8 @@ class ndarray:
         dt = _as_dtype(dt)
         if dt.kind == "M" and dt.unit == "generic" and self.dtype.kind == "M":
             dt = self.dtype
+        if copy is False and dt == self.dtype:
+            return self               # NumPy hands back the array itself when nothing has to be converted
         if self.dtype.kind == "O" and dt.kind != "O":
             cells = [unbox(_obj_scalar(c), dt) for c in self._cells()]
             if dt.kind == "M" and dt.unit == "generic": raise ModelGap("object -> generic datetime")
@@ -875,6 +882,9 @@ def _stable_order(keys):
     return order
 
 def lexsort(keys, axis=-1):
+    if isinstance(keys, ndarray) and keys._nd == 2:
+        if getattr(keys, "_rows", None) is None: raise ModelGap("lexsort on a 2-D array without rows")
+        keys = keys._rows
     keys = [k if isinstance(k, ndarray) else array(k) for k in keys]
     if not keys: raise TypeError("need sequence of keys with len > 0 in lexsort")
     for k in keys:
@@ -932,7 +942,11 @@ def array(obj, dtype_=None, copy=True, ndmin=0, **kw):
         if "nd" in kset:
             if kset == {"nd"} and len({len(x) for x in obj}) == 1:
                 inner = [array(x) if not isinstance(x, ndarray) else x for x in obj]
-                a = ndarray._make(list(range(len(obj))), inner[0].dtype if inner else dtype(float), nd=2)
+                rdt = inner[0].dtype if inner else dtype(float)
+                for x in inner[1:]:
+                    if x.dtype != rdt: rdt = _promote(rdt, x.dtype)
+                a = ndarray._make(list(range(len(obj))), rdt, nd=2)
+                a._rows = [x if x.dtype == rdt else ndarray._make(x._cells(), x.dtype).astype(rdt) for x in inner]     # rows in the common dtype
                 return a
             raise ValueError("setting an array element with a sequence. The requested array has an inhomogeneous "
                              "shape after 1 dimensions.")
@@ -1018,13 +1032,25 @@ def fromiter(it, dtype, count=-1):
     if count >= 0: xs = xs[:count]
     return array(xs, dtype)
 
-def concatenate(parts, axis=0):
+def concatenate(parts, axis=0, out=None, dtype=None, casting="same_kind"):
+    if out is not None: raise ModelGap("concatenate(out=)")
     parts = list(parts)
     if not parts: raise ValueError("need at least one array to concatenate")
     parts = [p if isinstance(p, ndarray) else array(p) for p in parts]
     dt = parts[0].dtype
     for p in parts[1:]:
         dt = _promote(dt, p.dtype)
+    if dtype is not None:
+        # every part is cast to the requested dtype under the casting rule (default same_kind: narrowing within a kind passes)
+        dt = _as_dtype(dtype)
+        if casting != "same_kind": raise ModelGap(f"concatenate(casting={casting!r})")
+        for p in parts:
+            a, b = p.dtype.kind, dt.kind
+            if a == b and a in "bifMmUO": continue
+            if a in "bif" and b in "bif" and "bif".index(a) < "bif".index(b): continue
+            if a in "bif" and b in "bif":
+                raise TypeError(f"Cannot cast array data from dtype('{p.dtype}') to dtype('{dt}') according to the rule 'same_kind'")
+            raise ModelGap(f"concatenate(dtype=) from {p.dtype} to {dt}")
     cells = []
     for p in parts:
         if p.dtype.kind == "O" or dt.kind != "O":
